@@ -99,9 +99,19 @@ def r1_one_impl(rep, ctx):
         return a[0] == "call" and a[1][0] == "attr" and a[1][2] == "CreateEmpty"
 
     gens = [c for c in own_nodes(afn.node) if isinstance(c, ast.Call) and isinstance(c.func, ast.Name) and c.func.id == "_ValueGenerator"]
+    gen_fn = afn
+    if not gens:
+        from ..anchors import KNOWN_FUNCTIONS
+        for c in own_nodes(afn.node):
+            if isinstance(c, ast.Call) and isinstance(c.func, ast.Attribute) and c.func.attr not in KNOWN_FUNCTIONS:
+                g = m.lookup("Array", c.func.attr)
+                if g is not None and [a.id if isinstance(a, ast.Name) else None for a in c.args] == [p1, p2] and [p for p in g.params if p not in ("self", "cls")][:2] == [p1, p2]:
+                    gens = [x for x in own_nodes(g.node) if isinstance(x, ast.Call) and isinstance(x.func, ast.Name) and x.func.id == "_ValueGenerator"]
+                    gen_fn = g
+                    ares_g = Resolver(m, g)
     rep.floor("C10.R1", "_ValueGenerator constructions", len(gens), 3)
     for g in gens:
-        a, b = (ares.term(x) for x in g.args[:2])
+        a, b = ((ares if gen_fn is afn else ares_g).term(x) for x in g.args[:2])
         rep.check(side(a) == {1} and side(b) == {2}, "C10.R1", "Array._DoOperation:%s" % norm(ast.unparse(g)), "the pair generator gets the left operand's values first and the right operand's second",
                   "the pair generator is built from (%s, %s): operands change sides" % (show(a), show(b)), node=g, fn=afn)
     for c in acalls:
@@ -172,8 +182,21 @@ def r2_zip(rep, ctx):
                 st = st._parent
             block_owner = st._parent
             block = block_owner.orelse if (isinstance(block_owner, ast.If) and st in block_owner.orelse) else getattr(block_owner, "body", [])
-            first = block[0] if block else None
-            ok = isinstance(first, ast.If) and "len(" in ast.unparse(first.test) and cfg.must_raise_from([(cfg.node_of(first.test), "T")]) if first is not None and isinstance(first, ast.If) and isinstance(first.test, ast.Compare) and isinstance(first.test.ops[0], ast.NotEq) else False
+            res_ = Resolver(m, fn)
+            first = None
+            ok = False
+            before_ok = True
+            for b_ in block:
+                if isinstance(b_, ast.If) and any(x[0] == "call" and x[1] == ("name", "len") for x in walk(res_.term(b_.test))):
+                    first = b_
+                    break
+                if not isinstance(b_, (ast.Assign, ast.AnnAssign)) and not (isinstance(b_, ast.Expr) and isinstance(b_.value, ast.Constant)):
+                    before_ok = False
+            if first is not None and before_ok:
+                tn = cfg.node_of(first.test)
+                tt_ = res_.term(first.test)
+                differ = "T" if tt_[0] == "op" and tt_[1] == "cmp:NotEq" else "F" if tt_[0] == "op" and tt_[1] == "cmp:Eq" else None
+                ok = differ is not None and cfg.must_raise_from([(tn, differ)])
             rep.check(bool(ok), "C10.R2", "_ValueGenerator.__iter__:length-check-first", "the branch pairing two iterated operands starts with the length check",
                       "the branch that pairs two list/tuple operands does something before comparing their lengths (an early exit for an empty operand lets [] + [1.0] through)", node=first or st, fn=fn)
 
@@ -228,33 +251,24 @@ def r4_container(rep, ctx):
         guarded = isinstance(p, ast.If) and st in p.body and isinstance(p.test, ast.Call) and isinstance(p.test.func, ast.Attribute) and p.test.func.attr == "IsTuple"
         rep.check(guarded, "C10.R4", "Array._DoOperation:tuple-iff-IsTuple", "the result list becomes a tuple exactly under IsTuple()", "the tuple conversion of the result is not guarded by IsTuple()", node=st, fn=fn)
     it = m.method("_ValueGenerator", "IsTuple")
-    bad = []
-    for c in own_nodes(it.node):
-        if isinstance(c, ast.Return) and c.value is not None:
-            v = c.value
-            facts = []
-            # the returned expression may only test the operand(s) that are iterated on that path
-            p = getattr(c, "_parent", None)
-            cond = ast.unparse(p.test) if isinstance(p, ast.If) and c in p.body else None
-            tested = {x.attr for x in ast.walk(v) if isinstance(x, ast.Attribute) and x.attr in ("p1", "p2")}
-            if cond == "self.iterate_1st and self.iterate_2nd":
-                want = {"p1", "p2"}
-            elif cond == "self.iterate_1st":
-                want = {"p1"}
-            elif cond == "self.iterate_2nd":
-                want = {"p2"}
-            else:
-                want = set()
-                if not (isinstance(v, ast.Constant) and v.value is False):
-                    bad.append("unguarded return %s" % ast.unparse(v))
-            if tested != want:
-                bad.append("under `%s` it tests %s" % (cond, sorted(tested)))
-            for call in ast.walk(v):
-                if isinstance(call, ast.Call) and isinstance(call.func, ast.Name) and call.func.id == "isinstance":
-                    if not (isinstance(call.args[1], ast.Name) and call.args[1].id == "tuple"):
-                        bad.append("tests against %s" % ast.unparse(call.args[1]))
-    rep.check(not bad, "C10.R4", "_ValueGenerator.IsTuple:iterated-operands-only", "IsTuple() is true exactly when every iterated operand is a tuple",
-              "IsTuple(): %s" % "; ".join(bad), fn=it)
+    from .. import booleval
+    atoms = ["it1", "it2", "t1", "t2"]
+
+    def atom_of(e):
+        txt = ast.unparse(e).replace(" ", "")
+        return {"self.iterate_1st": "it1", "self.iterate_2nd": "it2", "isinstance(self.p1,tuple)": "t1", "isinstance(self.p2,tuple)": "t2"}.get(txt)
+
+    try:
+        tt = booleval.truth_table(it.node, atoms, atom_of)
+    except booleval.Unknown as e:
+        raise AnalysisError("_ValueGenerator.IsTuple is not a boolean combination of the iterate flags and isinstance(operand, tuple): %s" % e)
+    wrong = []
+    for (it1, it2, t1, t2), got in tt.items():
+        want = (it1 or it2) and (t1 or not it1) and (t2 or not it2)
+        if got != want:
+            wrong.append("iterate_1st=%s iterate_2nd=%s p1-is-tuple=%s p2-is-tuple=%s -> %s (expected %s)" % (it1, it2, t1, t2, got, want))
+    rep.check(not wrong, "C10.R4", "_ValueGenerator.IsTuple:iterated-operands-only", "IsTuple() is true exactly when something is iterated and every iterated operand is a tuple (all 16 cases of its truth table)",
+              "IsTuple(): %s" % "; ".join(wrong[:3]), fn=it)
     init = m.method("_ValueGenerator", "__init__")
     ok = True
     for st in own_statements(init.node):
@@ -292,7 +306,10 @@ def r5_from_scalars(rep, ctx):
     vals = kw.get("values")
     t = res.term(vals) if vals is not None else None
     has_first = t is not None and any(s[0] == "call" and s[1][0] == "attr" and s[1][2] == "GetValue" and any(x[0] == "call" and x[1] == ("name", "next") for x in walk(s[1][1])) for s in walk(t))
-    has_rest = t is not None and any(s[0] == "gen" for s in walk(t))
+    has_rest = (t is not None and any(s[0] == "gen" for s in walk(t))) or any(
+        isinstance(x, (ast.GeneratorExp, ast.ListComp)) and isinstance(x.elt, ast.Call) and isinstance(x.elt.func, ast.Attribute) and x.elt.func.attr in ("GetValue", "GetAbstractValue")
+        and isinstance(x.elt.func.value, ast.Name) and x.elt.func.value.id == x.generators[0].target.id and ast.unparse(x.generators[0].iter) == "scalars"
+        for x in ast.walk(fn.node))
     rep.check(has_first and has_rest, "C10.R5", "FromScalars:all-elements", "the values are the first scalar followed by all remaining scalars", "the values list does not contain the first scalar and every remaining one: %s" % (show(t, 120) if t else None), node=c, fn=fn)
 
 
@@ -356,7 +373,8 @@ def r7_getvalues(rep, ctx):
         t = res.term(node.value)
         if all(a == ("field", "_value") for a in alternatives(t)):
             p = getattr(node, "_parent", None)
-            guarded = isinstance(p, ast.If) and node in p.body and "unit is None" in ast.unparse(p.test) and ("self._quantity.unit" in ast.unparse(p.test) or "GetUnit" in ast.unparse(p.test) or "self.unit" in ast.unparse(p.test))
+            gt_ = show(res.term(p.test), 300) if isinstance(p, ast.If) else ""
+            guarded = isinstance(p, ast.If) and node in p.body and "$unit" in gt_ and "None" in gt_ and ("self._quantity.unit" in gt_ or "GetUnit()" in gt_ or "self.unit" in gt_)
             rep.check(guarded, "C10.R7", "Array.GetAbstractValue:unconverted-return", "stored values are returned unconverted only when no unit or the own unit is requested",
                       "Array.GetAbstractValue returns the stored values unconverted without testing the requested unit against the own unit", node=node, fn=fn)
 
